@@ -216,12 +216,18 @@ def canon_steps(steps):
     return [sorted(s) for s in steps]
 
 
+WORDS = {'events': 'SETEVENTS', 'take': 'TAKEOWNERSHIP', 'reset': 'RESETCONF', 'attach-setup': 'SETEVENTS', 'attach-launch': 'SETEVENTS'}
+
+
 def spec_trace(c):
-    """the statement, read as a machine: which effects each operation must have"""
+    """the statement, read as a machine: which effects each operation must have.  A control connection answers one
+    command at a time (C01), so what is queued behind an unanswered command reaches the wire when that one is answered."""
     stdout = ''
     attempted = False
-    conns = {}          # k -> {'stage', 'sub'}
+    conns = {}          # k -> {'stage', 'sub', 'queue', 'after_boot'}
     n_attempts = 0
+    latest = None
+    attach_started = False
     notified = None
     waiting = [0]
     next_rid = 1
@@ -229,16 +235,28 @@ def spec_trace(c):
     exited = False
     tmp = not c['user_dir']
     steps = []
-    order = ['boot', 'events', 'take', 'reset', 'attach', 'done']
+
+    def enqueue(k, item, o):
+        q = conns[k]['queue']
+        q.append(item)
+        if len(q) == 1 and item in WORDS:
+            o.append('cmd:%d:%s' % (k, WORDS[item]))
 
     def notify(ok, o):
-        nonlocal notified, waiting
+        nonlocal notified, waiting, attach_started
         if notified is None:
             notified = ok
             for r in waiting:
                 if r != 0:
                     o.append('fired:%d:%d' % (r, 1 if ok else 0))
             waiting = []
+            if ok and not attach_started and latest is not None:
+                # launch() goes on: the configuration is attached to the control connection
+                attach_started = True
+                if conns[latest]['queue'][:1] == ['boot']:
+                    conns[latest]['after_boot'] = True
+                else:
+                    enqueue(latest, 'attach-launch', o)
     for op in c['ops']:
         o = []
         k = op[0]
@@ -246,7 +264,7 @@ def spec_trace(c):
             stdout += op[1]
             if not attempted and 'Opening Control listener' in stdout:
                 attempted = True
-                conns[n_attempts] = {'stage': 'connecting', 'sub': False}
+                conns[n_attempts] = {'stage': 'connecting', 'sub': False, 'queue': [], 'after_boot': False}
                 o.append('attempt:%d' % n_attempts)
                 n_attempts += 1
         elif k == 'err':
@@ -256,28 +274,41 @@ def spec_trace(c):
             cn = conns.get(op[1])
             if cn and cn['stage'] == 'connecting':
                 if op[2]:
-                    cn['stage'] = 'boot'
+                    cn['stage'] = 'setup'
+                    cn['queue'] = ['boot']
+                    latest = op[1]
                 else:
                     cn['stage'] = 'failed'
                     attempted = False
         elif k == 'ack':
             cn = conns.get(op[1])
-            if cn and cn['stage'] in order[:-1]:
-                if not op[2]:
+            if cn and cn['queue']:
+                item = cn['queue'].pop(0)
+                if cn['queue'] and cn['queue'][0] in WORDS:
+                    o.append('cmd:%d:%s' % (op[1], WORDS[cn['queue'][0]]))
+                ok = op[2]
+                if item == 'attach-launch':
+                    pass
+                elif not ok:
                     cn['stage'] = 'failed'
                     attempted = False
-                else:
-                    nxt = order[order.index(cn['stage']) + 1]
-                    cn['stage'] = nxt
-                    if nxt == 'events':
-                        cn['sub'] = True
-                        o.append('cmd:%d:SETEVENTS' % op[1])
-                    elif nxt == 'take':
-                        o.append('cmd:%d:TAKEOWNERSHIP' % op[1])        # ownership is requested on the authenticated connection …
-                    elif nxt == 'reset':
-                        o.append('cmd:%d:RESETCONF' % op[1])
-                    elif nxt == 'attach':
-                        o.append('cmd:%d:SETEVENTS' % op[1])
+                elif item == 'boot':
+                    cn['sub'] = True
+                    enqueue(op[1], 'events', o)
+                    if cn['after_boot']:
+                        enqueue(op[1], 'attach-launch', o)
+                elif item == 'events':
+                    enqueue(op[1], 'take', o)              # ownership is requested on the authenticated connection …
+                elif item == 'take':
+                    enqueue(op[1], 'reset', o)
+                elif item == 'reset':
+                    if not attach_started:
+                        attach_started = True
+                        enqueue(op[1], 'attach-setup', o)
+                    else:
+                        cn['stage'] = 'done'
+                elif item == 'attach-setup':
+                    cn['stage'] = 'done'
         elif k == 'prog':
             cn = conns.get(op[1])
             if cn and cn['sub']:
